@@ -56,6 +56,12 @@ BuildTwice(k, n, t) ==
          b2 == [built EXCEPT ![k] = TRUE]
      IN /\ lib' = l2 /\ built' = b2 /\ UNCHANGED <<insts, stream>>
         /\ Record(Base("build2", k, n, t, 0, FALSE, FALSE), l2, b2, insts)
+\* a resource that re-defines an existing name next to a new, unrelated rule: error, the rule in force stays (C16)
+\* (whether the unrelated rule is taken is not specified: it never matches a probe and is not part of the projection)
+BuildDupWithCompanion(k, n, t) ==
+  /\ CanStep("builddupc") /\ lib[k][n] # 0
+  /\ UNCHANGED <<lib, built, insts, stream>>
+  /\ Record(Base("builddupc", k, n, t, 0, FALSE, FALSE), lib, built, insts)
 \* an ungrammatical text / a text with an invalid literal: error, nothing changes (C17)
 BuildBad(k, kind) ==
   /\ CanStep(kind)
@@ -96,7 +102,7 @@ Load(k, ow) ==
      IN /\ lib' = l2 /\ built' = b2 /\ UNCHANGED <<insts, stream>>
         /\ Record(Base("load", k, "", 0, 0, ow, okk), l2, b2, insts)
 
-Next == \/ \E k \in Kbs, n \in RuleNames, t \in Texts : Build(k, n, t) \/ BuildTwice(k, n, t)
+Next == \/ \E k \in Kbs, n \in RuleNames, t \in Texts : Build(k, n, t) \/ BuildTwice(k, n, t) \/ BuildDupWithCompanion(k, n, t)
         \/ \E k \in Kbs, kind \in {"badsyntax", "badliteral"} : BuildBad(k, kind)
         \/ \E k \in Kbs, n \in RuleNames, how \in {"rmlib", "rmkb"} : RemoveLib(k, n, how)
         \/ \E i \in 1..MaxInst, n \in RuleNames : RemoveInst(i, n)
